@@ -37,7 +37,7 @@ def run(ctx):
     ctx.do(S.rule_sh5)
     ctx.do(S.rule_sh7)
     ctx.do(CA.rule_c2, "ProjectiveObject", scope=ctx.scope(ENTRIES + GEOMETRY))
-    ctx.do(SI.rule_mean1, [SI.HYP], min_sites=2)
+    ctx.do(SI.rule_mean1, [SI.HYP], min_sites=3)
     ctx.do(S.rule_ax1, [CORE, "geometry_tools/hyperbolic.py", PROJ])
     ctx.do(NP.rule_mk2, [CORE, "geometry_tools/hyperbolic.py", PROJ, "geometry_tools/lie/core.py", "geometry_tools/complex_projective.py"])
     ctx.do(P.rule_s1, ops=[(PROJ, "ProjectiveObject.reshape"),
